@@ -166,7 +166,7 @@ int main(int argc, char** argv)
                 /* partial decoding: every target for small contents, sampled for large */
                 int t, step = D <= 400 ? 1 : 1 + D / 60; int trailing = rndp(30) ? (int)rndn(21) : 0;
                 u8* blk2 = xalloc(g.blkSize + (size_t)trailing); memcpy(blk2, g.blk, g.blkSize); for (k = 0; k < trailing; k++) blk2[g.blkSize + (size_t)k] = (u8)rnd();
-                for (t = 0; t <= D + 2; t += (t > 20 && t < D - 20) ? step : 1) {
+                for (t = 0; t <= D + 70; t += ((t > 20 && t < D - 20) ? step : (t > D + 2 ? 1 + (int)rndn(9) : 1))) {
                     int mint = t < D ? t : D; int cap = mint + (rndp(50) ? 0 : rndp(50) ? 1 : rndp(50) ? D - mint : D - mint + 64); int pl = (int)rndn(2);
                     if (cap < mint) cap = mint;
                     if (trailing && t > D) continue;   /* contract with trailing bytes only covers t <= |D| */
